@@ -47,9 +47,17 @@ func hostArg(v Value) (interface{}, bool) {
 	switch x := iv.v.(type) {
 	case string:
 		return x, true
+	case FInt:
+		if x.t.isConst() {
+			return float64(int64(x.t.val)), true
+		}
+		return nil, false
 	case *Term:
 		if !x.isConst() {
 			return nil, false
+		}
+		if x.op == "fp.const" {
+			return x.fval(), true
 		}
 		if _, signed, ok := bvInfo(iv.t); ok {
 			if signed {
@@ -91,6 +99,30 @@ func (w *Worker) intrinsicHost(s *State, f *Frame, name string, fn *ssa.Function
 		return adv(BV(64, uint64(int64(strings.LastIndex(args[0].(string), args[1].(string))))))
 	case "strings.Repeat":
 		return adv(strings.Repeat(args[0].(string), int(w.concretize(s, asTerm(args[1])))))
+	case "strconv.Atoi":
+		if a, ok := str(0); ok {
+			v, err := strconv.Atoi(a)
+			if err != nil {
+				return adv(Tuple{BV(64, 0), parseErr(a)})
+			}
+			return adv(Tuple{BV(64, uint64(int64(v))), Iface{}})
+		}
+	case "strconv.ParseBool":
+		if a, ok := str(0); ok {
+			v, err := strconv.ParseBool(a)
+			if err != nil {
+				return adv(Tuple{Bool(false), parseErr(a)})
+			}
+			return adv(Tuple{Bool(v), Iface{}})
+		}
+	case "strconv.ParseFloat":
+		if a, ok := str(0); ok {
+			v, err := strconv.ParseFloat(a, 64)
+			if err != nil {
+				return adv(Tuple{floatConst(0), parseErr(a)})
+			}
+			return adv(Tuple{floatConst(v), Iface{}})
+		}
 	case "strconv.ParseUint", "strconv.ParseInt":
 		a, _ := str(0)
 		base, bits := int(asTerm(args[1]).val), int(asTerm(args[2]).val)
